@@ -520,6 +520,10 @@ type history struct {
 	// cancel > 0: the caller's context is cancelled that long after the call started, while the send is still
 	// waiting for the confirmation. A cancelled wait may end early, but it has confirmed nothing.
 	cancel time.Duration
+	// shortLife: the message expires long before the waiting time is over (a short message lifetime, or an
+	// expiry that is near or already past). How long a send waits for its confirmation is the caller's
+	// waiting time; the expiry of the message says nothing about it.
+	shortLife bool
 }
 
 type outcome struct {
@@ -577,6 +581,7 @@ func drawHistory(c *core.Ctx, i int) history {
 		h.script = []wtest.Poll{same, {Seqno: h.s0 / 2}, {Seqno: 0}}
 		h.tail = same
 	}
+	h.shortLife = c.Intn(l("shortlife"), 4) == 0
 	if (h.kind == histNever || h.kind == histLower) && c.Intn(l("cancel"), 3) == 0 {
 		h.cancel = h.wait * time.Duration(c.Range(l("cancel.pct"), 5, 80)) / 100
 	}
@@ -591,6 +596,9 @@ func (h history) describe() string {
 	if h.cancel > 0 {
 		api += fmt.Sprintf(" (context cancelled after %v)", h.cancel)
 	}
+	if h.shortLife {
+		api += " (message expires after a tenth of the waiting time)"
+	}
 	return fmt.Sprintf("%v %s seqno %d wait %v: %s (k=%d, +%d, junk=%v)", h.vp.Ref, api, h.s0, h.wait, histNames[h.kind], h.k, h.delta, h.junkErr)
 }
 
@@ -603,7 +611,13 @@ func (h history) run() outcome {
 	chain.State = wtest.StateActive(accountOf(addr), 1000, code, wtest.MustCell(walletref.DataCell(h.vp.Ref, uint64(h.s0), pub, ids)))
 	var out outcome
 	out.err = core.Protect(func() error {
-		w, err := wallet.New(h.key, h.vp.Lib, chain)
+		var wopts []wallet.Option
+		life := time.Minute
+		if h.shortLife {
+			life = h.wait / 10
+			wopts = append(wopts, wallet.WithMessageLifetime(life))
+		}
+		w, err := wallet.New(h.key, h.vp.Lib, chain, wopts...)
 		if err != nil {
 			return fmt.Errorf("HARNESS: wallet.New: %v", err)
 		}
@@ -629,7 +643,7 @@ func (h history) run() outcome {
 				}
 				raws = append(raws, wallet.RawMessage{Message: cell, Mode: mode})
 			}
-			_, err = w.RawSendV2(ctx, h.s0, time.Now().Add(time.Minute), raws, nil, h.wait)
+			_, err = w.RawSendV2(ctx, h.s0, time.Now().Add(life), raws, nil, h.wait)
 		} else {
 			_, err = w.SendV2(ctx, h.wait, msgs...)
 		}
